@@ -1,5 +1,5 @@
 """C03 - IsaacRng / Isaac64Rng streams equal Jenkins' ISAAC and ISAAC-64."""
-from .. import terms as T
+from .. import terms as T, sq
 from ..harness import (Crate, State, Ref, ArrV, Struct, EnumV, flat_leaves, Anchor, Unsupported, SymbolicLoop, Diverged, symbolic_args, same_value)
 from ..ref import isaac as REF, xoshiro as XREF
 from .linear import Gen, SEEDABLE
@@ -13,6 +13,14 @@ RULE = ("(R1,R2,R5) BlockRngCore::generate of both cores is value-numbered on a 
 EXPLANATION = ("One refill block from an arbitrary state equals one reference call, for every state; whole-stream equality follows by induction "
                "over blocks, BlockRng/BlockRng64 handing the slots out in ascending order (dependency). The data-dependent indirections are "
                "compared symbolically, so no particular data is assumed.")
+
+
+def core_fields(g):
+    """indices of (mem, a, b, c): by today's names, else the one array field and the three scalar fields in declaration order"""
+    adt = g.adt
+    scal = r"(core::num::Wrapping<u(32|64)>|u32|u64)"
+    return (sq.find_field(adt, "mem", r"\[.*; \w+\]"), sq.find_field(adt, "a", scal, 0, 3), sq.find_field(adt, "b", scal, 1, 3),
+            sq.find_field(adt, "c", scal, 2, 3))
 
 
 def core_state(ev, st, crate, ident):
@@ -41,7 +49,7 @@ def check_generate(chk, crate, ident, w):
         return
     post = st.objs[oid]
     results = st.objs[roid]
-    iM, iA, iB, iC = names.index("mem"), names.index("a"), names.index("b"), names.index("c")
+    iM, iA, iB, iC = core_fields(g)
     mem0, a0, b0, c0 = v.fields[iM], v.fields[iA], v.fields[iB], v.fields[iC]
     rmem, ra, rb, rc, rsl = REF.isaac(mem0, a0, b0, c0, w)
     for nm, got, exp in (("a", post.fields[iA], ra), ("b", post.fields[iB], rb), ("c", post.fields[iC], rc)):
@@ -59,14 +67,15 @@ def check_generate(chk, crate, ident, w):
 
 def check_init(chk, crate, ident, w):
     g = Gen(crate, ident)
-    key = next((k for k, b in crate.bodies.items() if b["def"] == g.path + "::init"), None)
+    init_def = sq.find_fn(crate, g.path + "::init", r"fn\(\[.*; \w+\], u32\) -> .*", scope=g.path)
+    key = next((k for k, b in crate.bodies.items() if b["def"] == init_def), None)
     if key is None:
         raise Anchor("%s::init not found" % ident)
     body = crate.body(key)
     chk.body(key)
     where = body["span"][0]
     names = [f["name"] for f in g.adt["variants"][0]["fields"]]
-    iM, iA, iB, iC = names.index("mem"), names.index("a"), names.index("b"), names.index("c")
+    iM, iA, iB, iC = core_fields(g)
     for passes in (1, 2):
         ev = crate.evaluator(max_steps=2000000)
         st = State()
@@ -90,7 +99,7 @@ def check_init(chk, crate, ident, w):
 def check_seeding(chk, crate, ident, w):
     g = Gen(crate, ident)
     names = [f["name"] for f in g.adt["variants"][0]["fields"]]
-    iM = names.index("mem")
+    iM = core_fields(g)[0]
     # from_seed
     key = g.method(SEEDABLE, "from_seed")
     body = crate.body(key)
